@@ -8,7 +8,7 @@ import z3
 from checks.common import Check, VERIF
 from pyvc.interp import Program
 from pyvc import solve, models
-from contracts import lattice as K, lattice_vc as V, prune as P
+from contracts import lattice as K, lattice_vc as V, prune as P, orchestration as OC
 from rtc import runner, suites
 
 
@@ -24,6 +24,7 @@ def catalog(prog, tier):
         'upsert': lambda: [V.vc_upsert(prog, c, n, k) for c in ('BaseMatching', 'DistanceMatching') for n in (0, 1, 2) for k in (0, 1, 2)],
         'prune': lambda: [P.vc_prune(prog, t, w) for t in (False, True) for w in (False, True)],
         'obs': lambda: [V.vc_obs_distance(prog), V.vc_obs_simple(prog)],
+        'match_states': lambda: [OC.vc_match_states(prog, k, f) for k, f in (('node', 'base'), ('edge', 'base'), ('edge', 'distance'))],
         'trans': lambda: [V.vc_trans_distance(prog, o, h) for o in (True, False) for h in (True, False)] +
                          [V.vc_trans_simple(prog, m, h) for m in (True, False) for h in (True, False)],
     }
